@@ -156,20 +156,22 @@ func c07HookRound(w *ndWriter, seed int64, C, B, P, Cn, n int, loaderUs int, fir
 			}
 			role = r.(string)
 		}
-		e := E{"ev": "hook", "pt": point, "thr": role, "op": "-", "v": 0, "r": "-", "chl": -1, "pool": -1}
-		if o, ok := ops.Load(role); ok {
-			e["op"] = o
-		}
-		if inLock[point] {
-			chl, pool := qq.VerifSnapshotLocked()
-			e["chl"], e["pool"] = chl, len(pool)
-		}
-		rec.ev(e)
+		rec.evf(func() E {
+			e := E{"ev": "hook", "pt": point, "thr": role, "op": "-", "v": 0, "r": "-", "chl": -1, "pool": -1}
+			if o, ok := ops.Load(role); ok {
+				e["op"] = o
+			}
+			if inLock[point] { // read under the recorder's mutex: a stale length logged after a consumer's later line would misorder the trace
+				chl, pool := qq.VerifSnapshotLocked()
+				e["chl"], e["pool"] = chl, len(pool)
+			}
+			return e
+		})
 		perturbHook(point, obj)
 	}
+	rec.ev(E{"ev": "reset", "thr": "-", "op": "-", "v": 0, "r": "-", "c": C, "b": B, "pt": "-", "chl": 0, "pool": 0}) // first line of the round: the loader's hooks come after it
 	q = fpgo.NewBufferedChannelQueue[int](C, B, 2).SetLoadFromPoolDuration(time.Duration(loaderUs) * time.Microsecond)
 	cur.Store(q)
-	rec.ev(E{"ev": "reset", "thr": "-", "op": "-", "v": 0, "r": "-", "c": C, "b": B, "pt": "-", "chl": 0, "pool": 0})
 	line := func(ev, thr, op string, v int, r string) {
 		rec.ev(E{"ev": ev, "thr": thr, "op": op, "v": v, "r": r, "pt": "-", "chl": -1, "pool": -1})
 	}
@@ -242,6 +244,67 @@ func c07HookRound(w *ndWriter, seed int64, C, B, P, Cn, n int, loaderUs int, fir
 	n2 := rec.flush(w)
 	q.Close()
 	return n2
+}
+
+// One producer fills the channel and the overflow part (k items) and stops; then k consumers call Take() once each, at
+// the same moment (their wake-up notifications collapse into one token while the loader sleeps): every Take must return -
+// one loader pass hands items to all waiting receivers.  With offerFirst = false the takers block first and the offers follow.
+func c07BlockedTakers(w *ndWriter, C, k int, loaderUs int, offerFirst bool) int {
+	rec := &recorder{}
+	q := fpgo.NewBufferedChannelQueue[int](C, k, 2).SetLoadFromPoolDuration(time.Duration(loaderUs) * time.Microsecond)
+	rec.ev(E{"ev": "reset", "thr": "-", "op": "-", "v": 0, "r": "-", "c": C, "b": k})
+	offer := func() {
+		for i := 1; i <= k; i++ {
+			v := 1000 + i
+			rec.ev(E{"ev": "inv", "thr": "p1", "op": "offer", "v": v, "r": "-"})
+			err := q.Offer(v)
+			rec.ev(E{"ev": "res", "thr": "p1", "op": "offer", "v": v, "r": qerr(err)})
+		}
+	}
+	if offerFirst {
+		offer()
+		time.Sleep(time.Duration(loaderUs/2+100) * time.Microsecond) // the loader has made its first (failing) pass and sleeps
+	}
+	var wg sync.WaitGroup
+	var ready sync.WaitGroup
+	gate := make(chan struct{})
+	started := make(chan struct{}, k)
+	for c := 0; c < k; c++ {
+		wg.Add(1)
+		ready.Add(1)
+		go func(c int) {
+			defer wg.Done()
+			thr := fmt.Sprintf("c%d", c+1)
+			ready.Done()
+			<-gate
+			rec.ev(E{"ev": "inv", "thr": thr, "op": "take", "v": 0, "r": "-"})
+			started <- struct{}{}
+			v, err := q.Take()
+			if err == nil {
+				rec.ev(E{"ev": "res", "thr": thr, "op": "take", "v": v, "r": "ok"})
+			}
+		}(c)
+	}
+	ready.Wait()
+	close(gate)
+	for c := 0; c < k; c++ {
+		<-started
+	}
+	if !offerFirst {
+		time.Sleep(300 * time.Microsecond) // the takers are blocked on the channel
+		offer()
+	}
+	done := make(chan struct{})
+	go func() { wg.Wait(); close(done) }()
+	select {
+	case <-done:
+		rec.ev(E{"ev": "quiesce", "thr": "-", "op": "-", "v": q.Count(), "r": "-"})
+	case <-time.After(1500 * time.Millisecond):
+		rec.ev(E{"ev": "stuck", "thr": "-", "op": "take", "v": q.Count(), "r": "-"})
+	}
+	n := rec.flush(w)
+	q.Close() // releases whoever is still blocked
+	return n
 }
 
 // plain ChannelQueue: capacity C, no overflow part
@@ -330,7 +393,10 @@ func c07Main(args []string) error {
 			}
 			c := cfgs[r%len(cfgs)]
 			P, Cn := 1+r%3, 1+(r/3)%3
-			if r%9 == 8 {
+			if r%12 == 5 {
+				m := r / 12
+				events += c07BlockedTakers(w, 1+m%2, 3+m%4, []int{20000, 1000, 5000}[m%3], m%4 != 3)
+			} else if r%9 == 8 {
 				events += c07ChanRound(w, seed*100003+int64(r), 1+r%3, P, Cn, 4)
 			} else {
 				events += c07Round(w, seed*100003+int64(r), c[0], c[1], P, Cn, 4, []int{0, 1, 1000}[r%3])
